@@ -185,13 +185,27 @@ fn judge(
     dfs_valid(m, sources, &all, true, &format!("{what} (resumed past the known early None)"))
 }
 
-fn check_repr<D>(g: &D, name: &str, m: &UModel, sources: &[usize], obs: &mut Obs) -> Verdict
+fn check_repr<D>(g: &D, alt: &D, name: &str, m: &UModel, sources: &[usize], obs: &mut Obs) -> Verdict
 where
     D: Order + OutNeighbors + Clone,
 {
     let budget = m.size() + sources.len() + 2;
     if m.order() <= 40 {
         let len = m.reach(sources).len();
+        // `alt` is another digraph of the same representation and order (the converse)
+        crate::props::c02::clone_from_consistency(&format!("Dfs<{name}>"), || Dfs::new(g, sources.iter().copied()), || Dfs::new(alt, sources.iter().copied()), len)?;
+        crate::props::c02::clone_from_consistency(&format!("DfsDist<{name}>"), || DfsDist::new(g, sources.iter().copied()), || DfsDist::new(alt, sources.iter().copied()), len)?;
+        crate::props::c02::clone_from_consistency(&format!("DfsPred<{name}>"), || DfsPred::new(g, sources.iter().copied()), || DfsPred::new(alt, sources.iter().copied()), len)?;
+        // when the plain traversal is complete (no early None), the iterator must behave
+        // like an iterator over that sequence under count / last / fold / nth as well
+        let full: Vec<usize> = Dfs::new(g, sources.iter().copied()).collect();
+        if full.len() == len {
+            crate::props::c02::protocol(&format!("Dfs<{name}>"), || Dfs::new(g, sources.iter().copied()), &full)?;
+            let fd: Vec<(usize, usize)> = DfsDist::new(g, sources.iter().copied()).collect();
+            crate::props::c02::protocol(&format!("DfsDist<{name}>"), || DfsDist::new(g, sources.iter().copied()), &fd)?;
+            let fp: Vec<(Option<usize>, usize)> = DfsPred::new(g, sources.iter().copied()).collect();
+            crate::props::c02::protocol(&format!("DfsPred<{name}>"), || DfsPred::new(g, sources.iter().copied()), &fp)?;
+        }
         crate::props::c02::clone_consistency(&format!("Dfs<{name}>"), || Dfs::new(g, sources.iter().copied()), len)?;
         crate::props::c02::clone_consistency(&format!("DfsDist<{name}>"), || DfsDist::new(g, sources.iter().copied()), len)?;
         crate::props::c02::clone_consistency(&format!("DfsPred<{name}>"), || DfsPred::new(g, sources.iter().copied()), len)?;
@@ -465,11 +479,19 @@ impl Prop for C06 {
     fn check(c: &Case, obs: &mut Obs) -> Verdict {
         let m = reprs::model_of(&c.g);
         let s = &c.sources;
-        check_repr(&AdjacencyList::build(&c.g), "AdjacencyList", &m, s, obs)?;
-        check_repr(&AdjacencyMap::build(&c.g), "AdjacencyMap", &m, s, obs)?;
-        check_repr(&AdjacencyMatrix::build(&c.g), "AdjacencyMatrix", &m, s, obs)?;
-        check_repr(&EdgeList::build(&c.g), "EdgeList", &m, s, obs)?;
-        check_repr(&reprs::build_unit_weighted(&c.g), "AdjacencyListWeighted", &m, s, obs)?;
+        let alt = Dg {
+            order: c.g.order,
+            arcs: {
+                let mut a: Vec<(usize, usize)> = c.g.arcs.iter().map(|&(u, v)| (v, u)).collect();
+                a.sort_unstable();
+                a
+            },
+        };
+        check_repr(&AdjacencyList::build(&c.g), &AdjacencyList::build(&alt), "AdjacencyList", &m, s, obs)?;
+        check_repr(&AdjacencyMap::build(&c.g), &AdjacencyMap::build(&alt), "AdjacencyMap", &m, s, obs)?;
+        check_repr(&AdjacencyMatrix::build(&c.g), &AdjacencyMatrix::build(&alt), "AdjacencyMatrix", &m, s, obs)?;
+        check_repr(&EdgeList::build(&c.g), &EdgeList::build(&alt), "EdgeList", &m, s, obs)?;
+        check_repr(&reprs::build_unit_weighted(&c.g), &reprs::build_unit_weighted(&alt), "AdjacencyListWeighted", &m, s, obs)?;
 
         let reach = m.reach(s);
         let multi_in = reach
